@@ -389,6 +389,12 @@ def check_transition(world, cfg, pre, ev, log, exc, newly, post):
             errs.append(({"class": "protected_file_deleted"}, os.path.relpath(p, top)))
     # bookkeeping invariants on the post state
     recs = h.records
+    # every tracked path is a path below the watched directory as it was given, and no file is tracked under two names
+    outside = [p for p in recs if not os.path.abspath(p).startswith(top + os.sep)]
+    if outside:
+        errs.append(({"class": "tracked_path_outside_watch_path", "event": ev[0]}, "after %r: tracked %s, watched directory %s" % (ev, outside[:2], top)))
+    if len({os.path.realpath(p) for p in recs}) != len(recs):
+        errs.append(({"class": "file_tracked_twice", "event": ev[0]}, "after %r: %d tracked paths for %d files" % (ev, len(recs), len({os.path.realpath(p) for p in recs}))))
     qpaths = [p for q in h.queues.values() for _, p in q]
     if sorted(qpaths) != sorted(recs):
         errs.append(({"class": "records_queues_mismatch", "event": ev[0]}, "records %s queues %s" % (
